@@ -29,11 +29,12 @@ EXTENDS Naturals, Sequences, FiniteSets
 SameBase(b1, b2) == b1.addr = b2.addr /\ b1.open = b2.open /\ b1.writers = b2.writers
 
 \* SignedRegister::add_op : count check (admits while count < limit), entry size, then
-\* check_register_op (permissions, signature; nothing at all when anyone can write).
-\* The address carried by the operation is not looked at.
+\* check_register_op (the operation must carry the register's address; then permissions and
+\* signature -- neither when anyone can write).
 AddRes(P, b, cnt, lim, o) ==
     IF cnt >= lim THEN "TooManyEntries"
     ELSE IF P[o].big THEN "EntryTooBig"
+    ELSE IF P[o].addr # b.addr THEN "RegisterAddrMismatch"
     ELSE IF b.open THEN "Ok"
     ELSE IF P[o].signer \notin b.writers THEN "AccessDenied"
     ELSE IF ~P[o].sigOk THEN "InvalidSignature"
@@ -41,15 +42,17 @@ AddRes(P, b, cnt, lim, o) ==
 
 \* per-operation part of SignedRegister::verify (check_register_op first, then entry size)
 OpErr(P, b, o) ==
-    IF ~b.open /\ P[o].signer \notin b.writers THEN "AccessDenied"
+    IF P[o].addr # b.addr THEN "RegisterAddrMismatch"
+    ELSE IF ~b.open /\ P[o].signer \notin b.writers THEN "AccessDenied"
     ELSE IF ~b.open /\ ~P[o].sigOk THEN "InvalidSignature"
     ELSE IF P[o].big THEN "EntryTooBig"
     ELSE "Ok"
 
 \* SignedRegister::verify : the set of results it may give (which offending operation is met
-\* first depends on the byte order of the operations) -- rejects when count >= limit.
+\* first depends on the byte order of the operations) -- a register holding exactly `limit` entries
+\* (what add_op can fill it to) is accepted, more is rejected.
 VerifyRes(P, b, S, cnt, lim) ==
-    IF cnt >= lim THEN {"TooManyEntries"}
+    IF cnt > lim THEN {"TooManyEntries"}
     ELSE IF ~b.sigOk THEN {"InvalidSignature"}
     ELSE LET errs == {OpErr(P, b, o) : o \in S} \ {"Ok"}
          IN IF errs = {} THEN {"Ok"} ELSE errs
@@ -168,7 +171,7 @@ VerifiedMerge(r, s) ==
     \E res \in VMergeRes(Pool, base[r], base[s], ops[s], Cnt(s), Limit) :
     /\ ops' = IF res = "Ok" THEN [ops EXCEPT ![r] = @ \cup ops[s]] ELSE ops
     /\ given' = IF res = "Ok" THEN [given EXCEPT ![r] = @ \cup ops[s]] ELSE given
-    /\ lim' = (lim \/ (SameBase(base[r], base[s]) /\ Cnt(s) >= Limit))
+    /\ lim' = (lim \/ (SameBase(base[r], base[s]) /\ Cnt(s) > Limit))
     /\ Record([a |-> "VerifiedMerge", r |-> r, s |-> s, res |-> res])
     /\ UNCHANGED base
 
@@ -179,13 +182,13 @@ VerifiedMergeCrafted(r, cs, sig) ==
     \E res \in VMergeRes(Pool, base[r], bx, cs, Cardinality(cs), Limit) :
     /\ ops' = IF res = "Ok" THEN [ops EXCEPT ![r] = @ \cup cs] ELSE ops
     /\ given' = IF res = "Ok" THEN [given EXCEPT ![r] = @ \cup cs] ELSE given
-    /\ lim' = (lim \/ Cardinality(cs) >= Limit)
+    /\ lim' = (lim \/ Cardinality(cs) > Limit)
     /\ Record([a |-> "VerifiedMergeCrafted", r |-> r, cs |-> cs, sig |-> sig, res |-> res])
     /\ UNCHANGED base
 
 Verify(r) ==
     \E res \in VerifyRes(Pool, base[r], ops[r], Cnt(r), Limit) :
-    /\ lim' = (lim \/ Cnt(r) >= Limit)
+    /\ lim' = (lim \/ Cnt(r) > Limit)
     /\ Record([a |-> "Verify", r |-> r, res |-> res])
     /\ UNCHANGED <<base, ops, given>>
 
